@@ -53,6 +53,11 @@ def build(case):
     cls = make_class(case["sep"], case["pathattr"], bool(case.get("unreprable")))
     parents = shapes.shape_to_parents(_to_tuple(case["shape"]))
     nodes = []
+    links = set(case.get("links") or ())
+    link_cls = None
+    if links:
+        extra = {"__repr__": _boom, "__str__": _boom} if case.get("unreprable") else {}
+        link_cls = type("SepLink", (anytree.SymlinkNode,), dict(extra, separator=case["sep"]))
     for idx, parent in enumerate(parents):
         name = case["names"][idx]
         name = name_object(name)
@@ -60,6 +65,14 @@ def build(case):
             node = cls(name)
         else:
             node = cls(**{case["pathattr"]: name})
+        if idx in links:
+            # a SymlinkNode at this position: addressed by its target's name, placed by its own links (the target lives in
+            # another tree and has a parent and a child of its own)
+            decoy_parent = cls("decoy-parent") if case["pathattr"] == "name" else cls(**{case["pathattr"]: "decoy-parent"})
+            decoy_child = cls("decoy-child") if case["pathattr"] == "name" else cls(**{case["pathattr"]: "decoy-child"})
+            node.parent = decoy_parent
+            decoy_child.parent = node
+            node = link_cls(node)
         if parent is not None:
             node.parent = nodes[parent]
         nodes.append(node)
